@@ -22,8 +22,9 @@ PROP = {
                   "tags / non-records are rejected. Each tyWF condition the derive macro does not enforce is shown "
                   "necessary by a witness the macro accepts (model and real code). The model (layout + recognisers on "
                   "bridge events, incl. tuple structs, newtypes, enums) is tied to the real derive output by "
-                  "differential execution over a battery of 63 derived types on written and mutated values; the two "
-                  "Recon reading paths and the MessagePack round trip are decided on the implementation by a monitor.",
+                  "differential execution over a battery of 354 types (71 base types, each also as Vec / Option / struct field / HashMap value, so that reset-and-reused recognisers are exercised) on written and mutated values; the two "
+                  "Recon reading paths, the MessagePack round trip and 'one decoder instance = fresh reads' are decided on "
+                  "the implementation by a monitor.",
     "level_note": "The proc-macro expansion is exercised (battery), not modelled; a newtype used as #[form(body)] is in the "
                   "executable model and the correspondence but outside the theorem's tyWF fragment; the Recon "
                   "parser and the MessagePack byte level are not modelled (implementation-vs-implementation oracles); "
